@@ -7,7 +7,9 @@
 //! * branching assignments on the (i,i+1)-orbits that break the symmetries of the D-set;
 //! * k-sheeted covers (k = 2, 3) from sheet permutations on the edges, kept when the result
 //!   is a connected D-symbol (orbit lengths divide the base degrees, far operations commute).
+use rust_dsymbols::covers::finite_universal_cover;
 use rust_dsymbols::derived::minimal_image;
+use rust_dsymbols::dsyms::PartialDSym;
 use rust_dsymbols::dsets::DSet;
 use rust_dsymbols::util::partitions::Partition;
 use std::collections::HashSet;
@@ -428,6 +430,26 @@ fn main() {
         one.set_v_orbit(0, 1, 3);
         one.set_v_orbit(1, 1, 3);
         morph(&mut ctx, 1, &one, &one, "regress dim=2 size=1");
+    }
+
+    // (0) large symbols: finite universal covers of spherical symbols (24–120 chambers; the
+    //     library's coset enumeration only supplies the input, the Spec re-derives everything)
+    {
+        let mut bases = vec!["<1.1:1:1,1,1:3,3>", "<1.1:1:1,1,1:4,3>", "<1.1:2:2,1 2,1 2:2,4 4>"];
+        if th {
+            bases.push("<1.1:1:1,1,1:5,3>");
+            bases.push("<1.1:1 3:1,1,1,1:3,3,3>");
+        }
+        for b in bases {
+            if ctx.peek_mine() {
+                let base = b.parse::<PartialDSym>().unwrap();
+                let cov = Tab::from_dsym(&finite_universal_cover(&base));
+                let tag = format!("nt big dim={} size={}", cov.dim, cov.size);
+                minimg(&mut ctx, &cov, &tag);
+            } else {
+                ctx.skip();
+            }
+        }
     }
 
     // (1) 2D: every connected D-set up to isomorphism, symmetry-breaking branching assignments
